@@ -46,9 +46,9 @@ CLAIMED = {
     },
     "C18": {
         "level": "fault_enumeration",
-        "text": "Every single fault of six kinds at every position of two base configs is enumerated on all six stream front ends (finite family, exhaustive) and seeded multi-fault sequences under interleaved/abandoned/restarted generators are searched; each entry is compared bit for bit with its own solo run. Evidence of absence of interference within those bounds, not a proof.",
+        "text": "Three finite families are enumerated completely on all six stream front ends (every single fault of six kinds at every position of two base configs; a dead context at every position; abandon+restart at every yield point) and seeded multi-fault sequences (incl. fault storms, data-dependent and uncopyable-parameter faults) under interleaved/abandoned/restarted/re-run generators are searched; each entry is compared bit for bit with its own solo run. Evidence of absence of interference within those bounds, not a proof.",
         "ref": "DESIGN.md section 3 (C18)",
-        "note": "Trusts: the solo run as the meaning of 'the result it yields when configured alone'; faults are those of DESIGN 2.4 (no BaseException, no source I/O errors).",
+        "note": "Trusts: the solo run (executed in a pristine process forked before the faulty run) as the meaning of 'the result it yields when configured alone'; faults are those of DESIGN 2.4 (no BaseException, no source I/O errors). Every scenario runs in its own forked process (DESIGN 9.2).",
         "technique": "deterministic simulation: exhaustive single-fault injection + seeded fault-sequence search under a cooperative generator scheduler, differential solo-run oracle",
     },
 }
@@ -90,7 +90,7 @@ def main():
         }],
         "checks": checks,
         "not_applicable": na,
-        "notes": "Exit 0 held / 1 VIOLATION / 2 harness error. fix: commits in /repo are listed in known_findings.jsonl (status fixed). See DESIGN.md.",
+        "notes": "Exit 0 held / 1 VIOLATION / 2 harness error. 15 fix: commits in /repo are listed in known_findings.jsonl (status fixed, each with a demonstration under findings/); one known finding (C19 sanitised-name collision). ./check selftest = determinism; ./check mutants = 41 hand-written + 70+ independently written breaking changes (seeded/), all caught. See DESIGN.md sections 9-11.",
     }
     json.dump(m, open("MANIFEST.json", "w"), indent=1)
 
